@@ -440,3 +440,9 @@ Proof.
   - destruct s; [congruence|]. reflexivity.
   - rewrite last_set_last by exact NS. reflexivity.
 Qed.
+
+(* channels_order=None: the order is taken from the image heuristic only when `is_image_space(observation_space)` (default
+   arguments: uint8, bounds [0, 255], rank 3) holds, else it is the default (last axis) *)
+Lemma frag_auto_order : forall img sf : bool,
+  (if auto_order_is_image_guard img then auto_order_of_image sf else default_channels_first) = (img && sf)%bool.
+Proof. intros [] []; reflexivity. Qed.
